@@ -103,6 +103,51 @@ func (w *vWorld) feeders(s int, k vKey) []vSup {
 
 func (w *vWorld) resScope(r *vReg) int { return r.scope }
 
+// allFrom reports whether every element of a received group was produced by r.
+func (w *vWorld) allFrom(rc vRecv, r *vReg) bool {
+	for _, el := range rc.list {
+		v := w.findVal(el.ptr)
+		if el.isNil || v == nil || v.by.reg != r {
+			return false
+		}
+	}
+	// an empty list is r's output only if r has run and returned nothing
+	return len(rc.list) > 0 || r.succeeded() != nil
+}
+
+// buildingFor reports whether decorator d has not produced its values yet and
+// consumer r lies in the dependency closure of d's parameters, so that r may be
+// running because dig is building d's arguments (d is then on dig's stack and
+// is skipped by every resolution below it).
+func (w *vWorld) buildingFor(d, r *vReg) bool {
+	if d == r || d.succeeded() != nil {
+		return false
+	}
+	// structural dependency: computed as if nothing were running (r itself is on
+	// the harness stack right now and would otherwise be skipped)
+	saved := w.stack
+	w.stack = nil
+	cl := &vClosure{}
+	w.closureX(w.resScope(d), d.f.params, vExcl(d, nil), cl, false)
+	w.stack = saved
+	return vHas(cl.may, r) && w.digBuilding(d)
+}
+
+// digBuilding reports whether dig itself has decorator d on its stack right
+// now.  The harness cannot see d's arguments being built (d's body has not been
+// entered yet), so it reads the state dig keeps in the decorator node.  It is
+// used only together with the structural condition in buildingFor, and only to
+// accept the value the decorator itself would see.
+func (w *vWorld) digBuilding(d *vReg) bool {
+	for _, res := range d.f.results {
+		k := key{t: res.t, name: res.name, group: res.group}
+		if n := w.scopes[d.scope].decorators[k]; n != nil && n.State() == decoratorOnStack {
+			return true
+		}
+	}
+	return false
+}
+
 // unavailable reports whether r cannot be built because a required
 // dependency is (transitively) missing.
 func (w *vWorld) unavailable(r *vReg, visiting []*vReg) bool {
